@@ -757,7 +757,7 @@ def main(tier: str, seed: int) -> int:
     ]
     nsh = shard.ncpu()
     shapes = shape_programs()
-    ngen = 150 if tier == "quick" else 2200
+    ngen = 110 if tier == "quick" else 2500
     progs = shapes + gen_programs(seed, ngen)
     nshards = max(1, min(len(progs), nsh * (1 if tier == "quick" else 3)))
     parts = shard.split(progs, nshards)
